@@ -12,6 +12,7 @@ def jobs(tier, seed):
                   bound="all timeout in 1..INT_MAX, maxtimeout in 0..INT_MAX, tries in 1..INT_MAX, servers 1..16, "
                         "try_count < servers*tries, arbitrary metrics buckets, arbitrary jitter; one call"))
     J += mjobs.requeue_jobs(tier)
+    J += mjobs.flush_requeue_jobs(tier)
     J += [j for j in mjobs.answer_jobs(tier, owner=False) if j["name"].endswith("current")]
     # "three bad-cookie resends": bounded by cookie_try_count in the real ares_cookie_validate (C17's validate jobs)
     import importlib.util
